@@ -427,23 +427,68 @@ func runC10(r *Run) {
 				}
 				addr := args[2]
 				var res *ssa.Call
-				for _, rc := range callsMatching(f, false, nameIs("net.ResolveTCPAddr", "net.ResolveIPAddr", "net.ResolveUDPAddr")) {
-					if cv, ok := rc.Value().(*ssa.Call); ok {
-						res = cv
-					}
-				}
-				if res == nil {
-					r.bad(short(f.String())+":Init:peer-address", r.pos(c.Instr), "the address handed to RequestCtx.Init is not resolved from the request's RemoteAddr in this function: not the shape the rule reads")
-					continue
-				}
-				fromReq := dependsOn(res.Call.Args[len(res.Call.Args)-1], func(v ssa.Value) bool {
+				isRemoteAddr := func(v ssa.Value) bool {
 					if fa, ok := v.(*ssa.FieldAddr); ok {
 						if fv := fieldOfValue(fa); fv != nil && fv.Name() == "RemoteAddr" {
 							return true
 						}
 					}
 					return false
-				}) != nil
+				}
+				resolveIn := func(g *ssa.Function) *ssa.Call {
+					var out *ssa.Call
+					withoutHelpers(func() {
+						for _, rc := range callsMatching(g, false, nameIs("net.ResolveTCPAddr", "net.ResolveIPAddr", "net.ResolveUDPAddr")) {
+							if cv, ok := rc.Value().(*ssa.Call); ok {
+								out = cv
+							}
+						}
+					})
+					return out
+				}
+				res = resolveIn(f)
+				viaHelper := false
+				if res == nil {
+					// the resolution in a helper of the package that hands back what net.Resolve…Addr answered for the request's RemoteAddr
+					var own []callSite
+					withoutHelpers(func() { own = callsIn(f, false) })
+					for _, hc := range own {
+						h := hc.Common.StaticCallee()
+						if h == nil || h.Pkg != f.Pkg || len(h.Blocks) == 0 || h.Signature.Results().Len() != 2 {
+							continue
+						}
+						inner := resolveIn(h)
+						if inner == nil || dependsOn(inner.Call.Args[len(inner.Call.Args)-1], isRemoteAddr) == nil {
+							continue
+						}
+						var ext0 ssa.Value
+						for _, u := range *inner.Referrers() {
+							if e, ok := u.(*ssa.Extract); ok && e.Index == 0 {
+								ext0 = e
+							}
+						}
+						okRets := ext0 != nil
+						for _, in := range instrsWhereOne(h, isReturn) {
+							r0 := in.(*ssa.Return).Results[0]
+							if c := asConst(r0); c != nil && constIsNil(c) {
+								continue
+							}
+							if ext0 == nil || !flowsUnchanged(r0, ext0) {
+								okRets = false
+							}
+						}
+						if okRets {
+							if cv, ok := hc.Value().(*ssa.Call); ok {
+								res, viaHelper = cv, true
+							}
+						}
+					}
+				}
+				if res == nil {
+					r.bad(short(f.String())+":Init:peer-address", r.pos(c.Instr), "the address handed to RequestCtx.Init is not resolved from the request's RemoteAddr in this function: not the shape the rule reads")
+					continue
+				}
+				fromReq := viaHelper || dependsOn(res.Call.Args[len(res.Call.Args)-1], isRemoteAddr) != nil
 				var ext ssa.Value
 				var errv ssa.Value
 				for _, u := range *res.Referrers() {
